@@ -34,7 +34,16 @@ bool reservedFitsKeyword(const char* key){
 	       strncmp("NAXIS", key, 5) == 0 ||
 	       strncmp("PERIOD", key, 6) == 0 ||
 	       strncmp("EXTEND", key, 6) == 0 ||
-	       strncmp("COMMENT", key, 7) == 0);
+	       strncmp("COMMENT", key, 7) == 0 ||
+	       //keywords with a structural meaning to FITS itself: commentary cards
+	       //carry no value, END terminates the header, and PCOUNT/GCOUNT are
+	       //interpreted by cfitsio when the primary HDU is opened
+	       strcmp("", key) == 0 ||
+	       strcmp("END", key) == 0 ||
+	       strcmp("HISTORY", key) == 0 ||
+	       strcmp("CONTINUE", key) == 0 ||
+	       strcmp("PCOUNT", key) == 0 ||
+	       strcmp("GCOUNT", key) == 0);
 }
 
 uint32_t countAuxKeywords(fitsfile* fits){
